@@ -164,7 +164,7 @@ def dict_default_gap(rst, ost):
     if r[0] == 'dict' and o[0] == 'dict' and r[1] is not None and o[1] is not None:
       for key, f in r[1]:
         for okey, g in o[1]:
-          if key == okey and key[0] == 'c' and f[-1][1] == ['M'] and not f[-1][2] and (g[-1][1] != ['M'] or g[-1][2]):
+          if key == okey and key[0] == 'c' and not f[-1][2] and (g[-1][1] != ['M'] or g[-1][2]) and f[-1][1] != g[-1][1]:
             return True
   return False
 
@@ -174,8 +174,7 @@ def union_int_and_float(st):
   k = st[0]
   if k == 'union':
     kinds = [c[0] for c in st[1]]
-    takes_int = any(c[0] in ('int', 'bool', 'any') or (c[0] == 'enum') for c in st[1])
-    if takes_int and ('float' in kinds or any(c[0] == 'enum' for c in st[1])):
+    if sum(1 for c in st[1] if c[0] in ('int', 'bool', 'float', 'enum', 'any')) >= 2:
       return True
     return any(union_int_and_float(c) for c in st[1])
   if k == 'list':
@@ -208,8 +207,6 @@ def default0(desc):
     return None                      # Dict.noneable() overwrites the default with None
   if desc.get('d') is not None:
     return desc['d']
-  if desc['k'] == 'dict' and desc.get('fields') is not None:
-    return ['d', []]                 # generated default: schema.apply({}, allow_partial=True)
   return None
 
 
@@ -619,6 +616,8 @@ class C04(Prop):
       return 'variable-tuple-becomes-fixed'
     if default_invalid(sc):
       return 'default-not-revalidated'
+    if dict_default_gap(sb, sc):
+      return 'dict-field-default-ignored'
     for d in spec_atoms(sc, True, []):
       if any(cross_type_equal(d, x) for x in vat):
         return 'value-equal-to-frozen-default-but-of-other-type'
